@@ -125,6 +125,7 @@ def portable_case(ctx: Ctx, case: dict):
     # behaviour: the re-created model is the same model -- after the same re-assignment, steady() gives the same levels and the
     # same parameters (the autovalue parameters are recomputed by `!steady-autovalues` equations) on both
     if not case.get("json"):
+        H = _H()
         try:
             a, b = m.copy(), m2.copy()
             for x in (a, b):
